@@ -14,7 +14,11 @@ def main():
     ap.add_argument("--tier", default=os.environ.get("VERIF_TIER") or "quick", choices=["quick", "thorough"])
     ap.add_argument("--replay")
     ap.add_argument("--only", default="")
-    ap.add_argument("--jobs", type=int, default=int(os.environ.get("VF_JOBS") or 16))
+    try:
+        ncpu = len(os.sched_getaffinity(0))
+    except AttributeError:
+        ncpu = os.cpu_count() or 4
+    ap.add_argument("--jobs", type=int, default=int(os.environ.get("VF_JOBS") or max(2, min(16, ncpu))))
     ap.add_argument("-v", action="store_true")
     ap.add_argument("--keep", action="store_true")
     a = ap.parse_args()
